@@ -18,6 +18,9 @@ let table : (string * (z list -> z list)) list = [
   ("hair_spans", run_hair_spans);
   ("dash_new", run_dash_new);
   ("dash", run_dash);
+  ("wide", run_wide);
+  ("scene", (fun _ -> [Model.Zneg (Model.XI (Model.XO (Model.XO Model.XH)))]));
+  ("wide_config", (fun _ -> [Model.Zneg (Model.XI (Model.XO (Model.XO Model.XH)))]));
   ("dash_geo", (fun _ -> [Model.Zneg (Model.XI (Model.XO (Model.XO Model.XH)))]));
   ("hair_px", (fun _ -> [Model.Zneg (Model.XI (Model.XO (Model.XO Model.XH)))]));
 ]
